@@ -100,6 +100,9 @@ MCTopicOps ==
 MCDisconnect ==
     /\ "disconnect" \in Ops
     /\ \E c \in Clients : (\E m \in Mem : m[1] = c) /\ Disconnect(c) /\ Record([op |-> "disconnect", c |-> c])
+MCExpire ==
+    /\ "expire" \in Ops
+    /\ \E c \in Clients : (\E m \in Mem : m[1] = c) /\ Expire(c) /\ Record([op |-> "expire", c |-> c])
 
 MCUsers ==
     \/ /\ "create_user" \in Ops
@@ -121,7 +124,7 @@ MCRestart ==
     /\ Restart /\ Record([op |-> "restart"])
 
 MCNext == MCCreateStream \/ MCUpdateStream \/ MCDeleteStream \/ MCPurgeStream \/ MCCreateTopic \/ MCTopicOps
-          \/ MCDisconnect \/ MCUsers \/ MCRestart
+          \/ MCDisconnect \/ MCExpire \/ MCUsers \/ MCRestart
 Bounded == Len(hist) <= MaxOps + (IF Seeded THEN Len(SeedScript) ELSE 0)
 MCSpec == MCInit /\ [][MCNext]_mvars
 View == vars
